@@ -168,7 +168,10 @@ class bound_composite_array(base_array):
             raise ProphyError("exceeded array limit")
 
         new_element = self._TYPE()
+        fields = set(field.name for field in new_element._descriptor) | set(["discriminator"])
         for name, value in attributes.items():
+            if name not in fields or name == "discriminator" and not issubclass(self._TYPE, union):
+                raise ProphyError("{} has no field {}".format(self._TYPE.__name__, name))
             attr = getattr(new_element, name)
             if isinstance(attr, base_array):
                 attr[:] = value
